@@ -99,6 +99,11 @@ type sizeCtx struct {
 func (s *sizeCtx) path(e ast.Expr) string {
 	switch x := ast.Unparen(e).(type) {
 	case *ast.Ident:
+		if raw := s.h.rawObjOf(x); raw != nil {
+			if def, ok := s.c.P.AliasExpr[raw]; ok {
+				return s.path(def) // a named local: the path of what it names
+			}
+		}
 		o := s.h.objOf(x)
 		if o == s.recv && o != nil {
 			return "recv"
